@@ -462,6 +462,43 @@ impl<T: Payload> World<T> {
                 v.push(viol("C11", "get_node_id_foreign_some", "node of a donor arena was attributed to this arena"));
             }
         }
+        // boundary probe: a foreign node stored exactly where this arena's storage ends.
+        // A clone (exact-capacity storage) and a small second arena are allocated back to back.
+        if count >= 1 && count <= 200 {
+            let nsz = std::mem::size_of::<indextree::Node<T>>();
+            let nal = std::mem::align_of::<indextree::Node<T>>();
+            crate::bump::open(nal, count * nsz, 2 * nsz);
+            let x = self.arena.clone();
+            let mut y: Arena<T> = Arena::with_capacity(2);
+            crate::bump::close();
+            y.new_node(T::make(1));
+            y.new_node(T::make(2));
+            let end = x.as_slice().as_ptr_range().end;
+            if y.count() == 2 && std::ptr::eq(end, y.as_slice().as_ptr()) {
+                self.stats.probe("foreign_node_at_one_past_the_end_address");
+                if x != self.arena {
+                    v.push(viol("C13", "clone_not_equal", "a.clone() != a (lookup probe)"));
+                }
+                let got = x.get_node_id(&y.as_slice()[0]);
+                if got.is_some() {
+                    v.push(viol(
+                        "C11",
+                        "get_node_id_foreign_some",
+                        format!(
+                            "a node of another arena stored directly behind this arena's storage was attributed to this arena (position {:?}, count {})",
+                            got.map(slot_of),
+                            count
+                        ),
+                    ));
+                }
+                let got2 = y.get_node_id(&x.as_slice()[count - 1]);
+                if got2.is_some() {
+                    v.push(viol("C11", "get_node_id_foreign_some", "a node stored directly in front of another arena's storage was attributed to that arena"));
+                }
+            }
+            drop(y);
+            drop(x);
+        }
         v
     }
 
